@@ -232,7 +232,8 @@ fn exec_op(w: &World, op: &Op) -> (usize, usize, String) {
         Op::CloneQ { s, t } => {
             let pq = get_pq(w, *s);
             let cl: Result<JpQuery, ()> = pq.0.clone();
-            let o = if cl == pq.0 && obs::obs_parse(&cl) == obs::obs_parse(&pq.0) { "eq" } else { "ne" };
+            // what the clone is worth is judged by the evaluations made through it (E on slot t)
+            let o = "cloned";
             {
                 let mut fd = w.qslot_first_debug[*t].lock().unwrap();
                 if fd.is_none() {
@@ -446,16 +447,6 @@ pub fn execute(plan: Plan, full: bool) -> RunResult {
             check_doc_integrity(&w, &d);
         }
     }
-    for (i, s) in w.qslots.iter().enumerate() {
-        if let Some(p) = s.lock().unwrap().as_ref() {
-            let now = obs::obs_parse(&p.0);
-            let first = w.qslot_first_debug[i].lock().unwrap().clone();
-            let fresh = obs::obs_parse(&obs::parse(&w.plan.queries[w.plan.qslots[i]]));
-            if Some(&now) != first.as_ref() || now != fresh {
-                w.integrity.lock().unwrap().push(format!("parsed query in slot {} ({}) no longer equals its first parse / a fresh parse", i, w.plan.queries[w.plan.qslots[i]]));
-            }
-        }
-    }
     let mut recs = w.recs.lock().unwrap().clone();
     recs.sort_by_key(|r| (r.c, r.j));
     let st = sch.stats();
@@ -581,7 +572,7 @@ fn self_exe() -> std::path::PathBuf {
     std::env::current_exe().expect("current_exe")
 }
 
-fn spawn_with_input(args: &[&str], input: &str, timeout_s: u64) -> Result<String, String> {
+pub fn spawn_with_input(args: &[&str], input: &str, timeout_s: u64) -> Result<String, String> {
     let mut child = Command::new(self_exe())
         .args(args)
         .env("VERIF_QUIET_PANICS", "1")
@@ -672,6 +663,8 @@ pub struct Corpus {
     pub fam_queries: Vec<Vec<usize>>,
     /// query -> one other family it is also used on
     pub q_other_family: Vec<usize>,
+    /// (query, near-twin text of it): pairs a sloppy cache key would confuse
+    pub twins: Vec<(usize, usize)>,
 }
 
 pub fn gen_corpus(seed: u64, n_fam: usize, q_per_fam: usize) -> Corpus {
@@ -685,14 +678,17 @@ pub fn gen_corpus_with(seed: u64, n_fam: usize, q_per_fam: usize, adv: bool) -> 
     let mut queries: Vec<String> = vec![];
     let mut fam_queries = vec![];
     let mut q_other_family = vec![];
+    let mut twins: Vec<(usize, usize)> = vec![];
     for f in 0..n_fam {
         let mut rng = Rng::new(derive(seed, "c12doc", f as u64));
         let names: &[&str] = if adv && f % 4 == 3 { gen::NAMES_ADV } else { gen::NAMES_PLAIN };
         let p = DocParams { max_nodes: 8 + rng.below(23), max_depth: 1 + rng.below(4), names, max_width: 4 };
         let mut base = gen::gen_doc(&mut rng, &p);
-        if f % 5 == 0 {
-            // the shape the extension functions and regex filters are selective on
-            base = json!({"elems": [gen::scalar(&mut rng), "a", "ab", ["a", "b"], ["x"], {"a": "xay", "b": 1}], "list": ["a", "b", 1], "x": {"a": "ab", "b": [1, 2, 3]}, "a": base});
+        let special = f % 3 == 0;
+        if special {
+            // the shape the extension functions, regex filters and root-dependent filters are selective on
+            base = json!({"elems": [gen::scalar(&mut rng), "a", "ab", ["a", "b"], ["x"], {"a": "xay", "b": 1, "re": "x.y"}, 2, 0], "list": ["a", "b", 1], "x": {"a": "ab", "b": [1, 2, 3]}, "a": base,
+                "flag": rng.chance(1, 2), "lim": rng.range(0, 2), "re": *rng.pick(gen::PATTERNS)});
         }
         let mut fam = vec![];
         let mut push = |v: &Value, contents: &mut Vec<String>| -> usize {
@@ -707,7 +703,22 @@ pub fn gen_corpus_with(seed: u64, n_fam: usize, q_per_fam: usize, adv: bool) -> 
         fam.push(push(&base, &mut contents));
         let n_pert = 1 + rng.below(2);
         for _ in 0..n_pert {
-            let pv = gen::perturb_leaf(&mut rng, &base);
+            let mut pv = if special && rng.chance(2, 3) { base.clone() } else { gen::perturb_leaf(&mut rng, &base) };
+            if special && pv == base {
+                // differ in exactly one of the top-level members that root-dependent atoms read
+                match rng.below(4) {
+                    0 => pv["flag"] = json!(!base["flag"].as_bool().unwrap_or(false)),
+                    1 => pv["lim"] = json!(base["lim"].as_i64().unwrap_or(0) + 1 + rng.below(2) as i64),
+                    2 => {
+                        let mut p = *rng.pick(gen::PATTERNS);
+                        while Some(p) == base["re"].as_str() {
+                            p = *rng.pick(gen::PATTERNS);
+                        }
+                        pv["re"] = json!(p);
+                    }
+                    _ => pv["list"] = json!(["a", "b", 1, 2]),
+                }
+            }
             fam.push(push(&pv, &mut contents));
         }
         let mut names_in = vec![];
@@ -719,7 +730,7 @@ pub fn gen_corpus_with(seed: u64, n_fam: usize, q_per_fam: usize, adv: bool) -> 
         while fq.len() < q_per_fam && k < q_per_fam * 4 {
             k += 1;
             let tier = qrng.weighted(&[3, 4, 3]);
-            let q = match qrng.weighted(&[10, 2, 2, 2]) {
+            let q = match qrng.weighted(&[10, 2, 4, 2, if special { 5 } else { 0 }]) {
                 0 => g.query(&mut qrng, tier),
                 1 => {
                     // match / search twins with the same pattern
@@ -740,14 +751,20 @@ pub fn gen_corpus_with(seed: u64, n_fam: usize, q_per_fam: usize, adv: bool) -> 
                     if fq.is_empty() {
                         g.query(&mut qrng, tier)
                     } else {
-                        let base_q = queries[*qrng.pick(&fq)].clone();
-                        gen::respell(&mut qrng, &base_q)
+                        let bi = *qrng.pick(&fq);
+                        let base_q = queries[bi].clone();
+                        let t = if qrng.chance(1, 3) { gen::respell(&mut qrng, &base_q) } else { gen::twin(&mut qrng, &base_q) };
+                        if !queries.contains(&t) {
+                            twins.push((bi, queries.len()));
+                        }
+                        t
                     }
                 }
-                _ => {
+                3 => {
                     let base_q = g.query(&mut qrng, tier);
                     gen::invalidate(&mut qrng, &base_q)
                 }
+                _ => g.root_dependent(&mut qrng),
             };
             if queries.contains(&q) {
                 continue;
@@ -759,7 +776,7 @@ pub fn gen_corpus_with(seed: u64, n_fam: usize, q_per_fam: usize, adv: bool) -> 
         families.push(fam);
         fam_queries.push(fq);
     }
-    Corpus { contents, families, queries, fam_queries, q_other_family }
+    Corpus { contents, families, queries, fam_queries, q_other_family, twins }
 }
 
 pub struct PlanMeta {
@@ -818,6 +835,15 @@ pub fn gen_plan(c: &Corpus, run_seed: u64) -> (Plan, PlanMeta) {
         let qi = *rng.pick(&pool);
         if !query_map.contains(&qi) {
             query_map.push(qi);
+            // bring near-twin texts along
+            for (a, b) in &c.twins {
+                let other = if *a == qi { Some(*b) } else if *b == qi { Some(*a) } else { None };
+                if let Some(o) = other {
+                    if pool.contains(&o) && !query_map.contains(&o) && rng.chance(3, 4) {
+                        query_map.push(o);
+                    }
+                }
+            }
             // bring the match/search twin along when there is one
             let q = &c.queries[qi];
             let twin = if q.contains("?match(") { Some(q.replacen("?match(", "?search(", 1)) } else if q.contains("?search(") { Some(q.replacen("?search(", "?match(", 1)) } else { None };
@@ -1054,9 +1080,6 @@ pub fn judge(plan: &Plan, r: &RunResult, table: &ColdTable) -> Vec<Mismatch> {
             continue;
         }
         if rec.kind == "CloneQ" {
-            if rec.status == "done" && rec.digest != fnv(b"eq") {
-                out.push(Mismatch { class: "obs-differs".into(), c: rec.c, j: rec.j, kind: rec.kind.clone(), query: plan.queries.get(rec.q).cloned().unwrap_or_default(), content: String::new(), expected: Some("eq".into()), observed: rec.obs.clone(), detail: "a cloned parsed query is not equal to its original".into() });
-            }
             continue;
         }
         if rec.q == usize::MAX {
